@@ -28,8 +28,27 @@ def relclose(a, b, tol=1e-9):
     a, b = float(a), float(b)
     return a == b or abs(a - b) <= tol * max(abs(a), abs(b))
 
+def sweep():
+    """every power of two from 2^-200 to 2^200 (what products of the IEC prefixes and of the byte's 2^3 amount to) combined with decimal prefixes from
+    either side: the numeric scale is base^exponent of both, to 1e-9, whichever operand comes first"""
+    fails = []
+    for e in range(-200, 201):
+        b = Prefix(2, e)
+        for dname in ("kilo", "milli", "mega", "yocto"):
+            d = Prefix._by_name[dname]
+            want = Fraction(2) ** e * Fraction(10) ** d.exponent
+            for name, f in (("d*b", lambda: d * b), ("b*d", lambda: b * d), ("d/b**-1", lambda: d / (b ** -1)), ("(d*b)*b/b", lambda: ((d * b) * b) / b), ("d*(b*b)/b", lambda: (d * (b * b)) / b)):
+                try:
+                    got = f().quantify()
+                    if not relclose(got, want): fails.append([name, e, dname, repr(got), float(want)])
+                except Exception as ex:  # noqa
+                    fails.append([name, e, dname, "raised " + implib.errclass(ex), float(want)])
+    return fails
+
 def run(data):
     out = []
+    if data.get("sweep"):
+        return {"results": [], "sweep_fails": sweep()[:20], "sweep_n": 401 * 4 * 5}
     for c in data["cases"]:
         rec = {"fails": []}
         try:
